@@ -99,8 +99,8 @@ Section Catalogue.
     | 12 => h_features h = (if c_vip191 cfg <=? num then 1 else 0)
     (* ---- proposer: authorised, its turn, score, beneficiary *)
     | 20 => exists mep, the_proposer mep
-    | 21 => forall mep, the_proposer mep ->
-            sched_is_the_time kind (pv_hash pv) (h_time parent) T (pv_cands pv) (p_addr mep) (h_time h) = true
+    | 21 => forall mep, the_proposer mep ->                         (* the signer owns the slot of the block's time (C05) *)
+            slot_owner kind (pv_hash pv) (h_time parent) T (pv_cands pv) (p_addr mep) (h_time h) = Some (p_addr mep)
     | 22 => forall mep, the_proposer mep ->
             h_total_score h = wrap64 (h_total_score parent + snd (updates_and_score mep))
     | 23 => pv_pos pv = true -> forall s bnf, h_signer h = Some s -> leader_beneficiary s (pv_cands pv) = Some bnf ->
@@ -116,7 +116,8 @@ Section Catalogue.
     | 37 => Forall (fun t => N.land (t_features t) (h_features h) = t_features t /\ t_unused t = false) txs
     (* ---- re-execution *)
     | 40 => NoDup (map t_id txs) /\ Forall (fun t => has_tx (t_id t) (t_ref t) = false) txs
-    | 41 => exists stf rs, the_run stf rs                          (* every transaction executes *)
+    | 41 => forall mep, the_proposer mep ->                         (* every transaction executes *)
+            exists stf rs, run (ctx_of_header parent h) (start_state mep) txs = Some (stf, rs)
     | 42 => forall stf rs, the_run stf rs -> deps_ok [] txs rs
     | 43 => forall stf rs, the_run stf rs -> h_gas_used h = total_gas rs
     | 44 => forall stf rs, the_run stf rs ->
